@@ -32,6 +32,8 @@ structure Oracle where
   doneEver : List String := []
   probeOkEver : List String := []
   logReadyEver : List String := []
+  logReadyInst : List (String × Nat) := []    -- (name, instance number) whose ready line was seen
+  foundAt : List (String × String × Nat) := [] -- (dependent, dependency, instance number of the dependency at the look-up)
   startedEver : List String := []
   terminatingEver : List String := []
   readySince : List String := []
@@ -52,6 +54,8 @@ structure Oracle where
   probersDown : List String := []            -- signalled by a stop; readiness prober not started again since
   startOnActive : List (String × String) := []   -- (api id, name): start requested on a process that has been
                                                  -- Running with a live command, in one instance, ever since
+  startOnReg : List (String × String) := []      -- (api id, name): start requested on a process that has had one
+                                                 -- registered, unfinished instance ever since (whatever its status)
   triggers : List (String × Int × Bool) := []   -- (process, code, genuine)
   expTriggers : List (String × Int) := []       -- read off the configuration: ended by itself with exit_on_end / a failure with exit_on_failure
   calls : List (String × List String) := []     -- api id ↦ op words
@@ -166,10 +170,15 @@ def parseTh (th : String) : List (String × String) :=
 def onObs (o : Oracle) (op : List String) (cmdAfter : List String)
     (st : List (String × (String × Int × Nat × String))) (ob : String) : Oracle × List String :=
   match words ob with
-  | ["dep", x, k, "found"] => ({ o with found := o.found ++ [(x, k)] }, [])
-  | ["dep", x, k, "none"] => ({ o with found := o.found.filter (· ≠ (x, k)) }, [])
+  | ["dep", x, k, "found"] =>
+    ({ o with found := o.found ++ [(x, k)],
+              foundAt := (o.foundAt.filter fun e => !(e.1 == x && e.2.1 == k)) ++ [(x, k, lookupD o.seenSeq k 0)] }, [])
+  | ["dep", x, k, "none"] =>
+    ({ o with found := o.found.filter (· ≠ (x, k)), foundAt := o.foundAt.filter fun e => !(e.1 == x && e.2.1 == k) }, [])
   | ["started", x] => ({ o with startedEver := addS o.startedEver x }, [])
-  | ["logready", x] => ({ o with logReadyEver := addS o.logReadyEver x, readySince := addS o.readySince x }, [])
+  | ["logready", x] =>
+    ({ o with logReadyEver := addS o.logReadyEver x, readySince := addS o.readySince x,
+              logReadyInst := o.logReadyInst ++ [(x, lookupD o.seenSeq x 0)] }, [])
   | ["state", x, s] =>
     let prev := lookupD o.status x "Pending"
     -- the first status write of a freshly started instance (made by its own goroutine)
@@ -207,7 +216,11 @@ def onObs (o : Oracle) (op : List String) (cmdAfter : List String)
       -- a dependency that had an instance in this run and has ended (finished, failed, skipped) without
       -- meeting the condition was scheduled to run just the same, whether or not it is still registered
       let endedBadly := lookupD o.seenSeq k 0 > 0 && isTerminal (lookupD o.status k "") && !(o.ovNames.contains k)
-      if (o.found.contains (x, k) || endedBadly) && !gateMet o k c then
+      -- process_log_ready is about the run the dependent looked up: a ready line printed by an earlier
+      -- run of the dependency (it ended and was started again) does not count
+      let staleLine := c == "l" && !(o.ovNames.contains k) &&
+        (o.foundAt.any fun e => e.1 == x && e.2.1 == k && !(o.logReadyInst.contains (k, e.2.2)))
+      if (o.found.contains (x, k) || endedBadly) && (!gateMet o k c || staleLine) then
         some ([s!"C01:launch-before-condition {x} needs {k}:{c}"] ++
           -- the dependency has ended or was stopped without satisfying the condition: C05 demands a skip
           (if o.doneEver.contains k || o.everStopped.contains k || o.stopBegun.contains k then
@@ -316,6 +329,10 @@ def onObs (o : Oracle) (op : List String) (cmdAfter : List String)
       let f := if !known && r != "no-such" then [s!"C08:unknown-name-not-rejected start {x} {r}"] else []
       -- C08: a start request on an active process fails (without side effects)
       let f := if r == "ok" && o.startOnActive.any (· == (id, x)) then f ++ [s!"C08:start-accepted-on-active {x}"] else f
+      -- ... and so does one on a process whose instance is registered and unfinished in any other state
+      -- (waiting out its back-off, being terminated): it is still active
+      let f := if f.isEmpty && r == "ok" && o.startOnReg.any (· == (id, x)) then
+          f ++ [s!"C08:start-accepted-on-registered {x} ({lookupD (parseSt o.lastSt) x ("", 0, 0, "") |>.1})"] else f
       (if r == "ok" then { o with stopReq := delS o.stopReq x, lastStartRet := setKV o.lastStartRet x (o.steps + 1) } else o, f)
     | ["restart", x] =>
       let known := o.decls.any (·.name = x)
@@ -383,7 +400,7 @@ def feed (o : Oracle) (op : List String) (impl : String) : Oracle × String :=
         if n > lookupD o.seenSeq x 0 then
           { o with seenSeq := setKV o.seenSeq x n, fresh := addS o.fresh key,
 
-                   found := o.found.filter (·.1 ≠ x), launchesInst := setKV o.launchesInst x 0,
+                   found := o.found.filter (·.1 ≠ x), foundAt := o.foundAt.filter (·.1 ≠ x), launchesInst := setKV o.launchesInst x 0,
                    exitAfterSd := delS o.exitAfterSd x, probersDown := delS o.probersDown x }
         else o
       | _ => o
@@ -406,6 +423,7 @@ def feed (o : Oracle) (op : List String) (impl : String) : Oracle × String :=
       match rest with
       | ["start", x] =>
         let single := ((csv th).filter fun (t : String) => procNameOfKey ((t.splitOn "@").headD "") == some x).length == 1
+        let o := if single && o.prevRun.contains x && run.contains x then { o with startOnReg := o.startOnReg ++ [(id, x)] } else o
         if single && isRunningSt (lookupD o.status x "") && o.prevCmd.contains x && cmd.contains x then
           { o with startOnActive := o.startOnActive ++ [(id, x)] } else o
       | _ => o
@@ -484,6 +502,9 @@ def feed (o : Oracle) (op : List String) (impl : String) : Oracle × String :=
   let soa := o.startOnActive.filter fun (ix : String × String) =>
     isRunningSt (lookupD o.status ix.2 "") && cmd.contains ix.2
   let o := { o with startOnActive := soa }
+  let sor := o.startOnReg.filter fun (ix : String × String) =>
+    run.contains ix.2 && ((csv th).filter fun (t : String) => procNameOfKey ((t.splitOn "@").headD "") == some ix.2).length == 1
+  let o := { o with startOnReg := sor }
   let o := { o with prevCmd := cmd, prevRun := run, lastTh := th, lastSt := field impl "st", lastCmd := cmd,
                     quiescent := quiescent, steps := o.steps + 1 }
   (o, verdictOf (fails.map (tagFail o)))
